@@ -1,13 +1,20 @@
 #!/bin/sh
 # usage: tools/seedtest.sh <patch.diff> <Cxx> [<Cyy> ...]
-# applies the patch to /repo, runs the quick checks, always restores /repo.
+# Runs the quick checks against /repo's HEAD with the patch applied.  Default: in a scratch
+# worktree (VERIF_REPO), so that concurrent work on /repo is not disturbed; with SEED_INPLACE=1 the
+# patch is applied to /repo itself (git -C /repo apply) and undone afterwards.
 patch="$1"; shift
 cd /verif
-git -C /repo diff --quiet || { echo "/repo is dirty"; exit 2; }
-git -C /repo apply "$patch" || { echo "patch does not apply"; exit 2; }
-for p in "$@"; do
-  echo "== $p"
-  ./check "$p" --tier quick 2>/dev/null | grep -E "VIOLATION|KNOWN" | cut -c1-200
-  echo "   exit=$?"
-done
-git -C /repo checkout -- . && git -C /repo clean -fdq
+if [ "$SEED_INPLACE" = 1 ]; then
+  git -C /repo diff --quiet || { echo "/repo is dirty"; exit 2; }
+  git -C /repo apply "$patch" || { echo "patch does not apply"; exit 2; }
+  for p in "$@"; do echo "== $p"; ./check "$p" --tier quick 2>/dev/null | grep -E "VIOLATION|KNOWN" | cut -c1-200; done
+  git -C /repo checkout -- . && git -C /repo clean -fdq
+else
+  W=/tmp/seedrepo
+  git -C /repo worktree remove --force $W 2>/dev/null
+  git -C /repo worktree add -q $W HEAD || exit 2
+  git -C $W apply "$patch" || { echo "patch does not apply"; git -C /repo worktree remove --force $W; exit 2; }
+  for p in "$@"; do echo "== $p"; VERIF_REPO=$W ./check "$p" --tier quick 2>/dev/null | grep -E "VIOLATION|KNOWN" | cut -c1-200; done
+  git -C /repo worktree remove --force $W
+fi
